@@ -110,6 +110,22 @@ def main():
     ctx = Ctx()
     ctx.pid, ctx.tier, ctx.seed = pid, a.tier, seed
     ctx.rng = random.Random(seed * 1000003 + int(pid[1:]))
+    # change-impact: when a source file this property is anchored in (or one it imports) differs from the tree the models were
+    # last synchronised with (fingerprints.json), inputs are generated at the thorough tier's size also in the quick tier
+    import fingerprint
+    anchors = []
+    for l in open(os.path.join(common.VERIF, "properties.jsonl")):
+        d = json.loads(l)
+        if d["id"] == pid:
+            anchors = d.get("anchors", {}).get("files", [])
+    changed = fingerprint.changed(common.REPO, os.path.join(common.VERIF, "fingerprints.json"))
+    touched = sorted(set(changed) & fingerprint.import_closure(common.REPO, anchors)) if changed else []
+    if os.environ.get("VERIF_FORCE_ESCALATE") == "1":
+        touched = touched or ["<forced>"]
+    ctx.escalated = bool(touched) and a.tier == "quick" and os.environ.get("VERIF_NO_ESCALATE") != "1"
+    if ctx.escalated:
+        log(f"[{pid}] anchored sources changed since the last model sync ({', '.join(touched)}): generating at the thorough size")
+        ctx.tier = "thorough"
     drv = common.Driver()
     ctx.driver = drv if (model_ok and drv.ok) else None
     ctx.findings = findings
@@ -198,6 +214,8 @@ def main():
         "exhaustive": bool(res.get("exhaustive", False)),
         "translator": gen_msg,
         "leanchecker": leanchecker,
+        "sources_changed_since_model_sync": touched,
+        "escalated_generation": ctx.escalated,
     }
     for opt in ("states", "transitions"):
         if opt in res:
